@@ -343,10 +343,20 @@ func c18Retry() {
 		case i < inv.script.nFail || inv.script.end < 0:
 			c.outcome = c18Plain
 			c.err = fmt.Errorf("plain error %d.%d", inv.n, i)
-			if (inv.n+i)%3 == 2 {
+			switch (inv.n + i) % 7 {
+			case 2, 5:
 				// an error whose dynamic type is not comparable (a slice): still just a plain error
 				c.err = c18ErrList{"plain", "uncomparable"}
 				simrt.Probe("uncomparable_plain_error")
+			case 3:
+				// a plain error that merely has a fatal one further down its chain: it is not "wrapped by
+				// FatalError", the operation is retried
+				c.err = fmt.Errorf("plain error %d.%d: %w", inv.n, i, bigbuff.FatalError(errors.New("buried")))
+				simrt.Probe("plain_error_with_buried_fatal")
+			case 4:
+				// the operation's own attempt ran into some other context's end: a plain error like any other
+				c.err = fmt.Errorf("plain error %d.%d: %w", inv.n, i, []error{context.Canceled, context.DeadlineExceeded}[i%2])
+				simrt.Probe("plain_error_wrapping_a_context_error")
 			}
 			simrt.Fault("op_error")
 		case inv.script.end == 0:
